@@ -166,6 +166,9 @@ def expr_text(e, ctx=None):
         return "exists: " + expr_text(e["e"])
     if x == "dflt":
         return "default"
+    if x == "err":
+        return {"type": "error.type.__name__", "lineno": "error.lineno", "offset": "error.offset",
+                "value": "type(error.value).__name__"}[e["f"]]
     if x == "bad":
         return BAD_EXPRS[e["k"] % len(BAD_EXPRS)]
     if x == "rep":
@@ -412,7 +415,23 @@ def roman(n):
     return out
 
 
+ERRFIELD = None
+
+
 def print_atoms(atoms, c, p, vf, objs=None):
+    global ERRFIELD
+
+    def errfield(v):
+        if v["f"] in ("type", "value"):
+            return v["c"]
+        s = v["site"]
+        line, col = c.linecol(c.sites[(s["i"], s["s"], s["j"])]["offset"])
+        return str(line if v["f"] == "lineno" else col)
+    ERRFIELD = errfield
+    return _print_atoms(atoms, c, p, vf, objs)
+
+
+def _print_atoms(atoms, c, p, vf, objs=None):
     """atoms: the machine's output stream.  Returns a list of segments:
     str (exact) or a compiled regex (free region).  `objs` maps log-derived
     python objects for values that came from calls (identity matters only
@@ -471,6 +490,8 @@ def _val_text(v, vf, objs):
         return out
     if v["t"] == "repvar":
         return str(repvar_value(v))
+    if v["t"] == "errfield":
+        return ERRFIELD(v)
     obj = vf.make(v) if objs is None else objs(v)
     return conv(obj)
 
